@@ -301,6 +301,15 @@ func readAll(c netio.Conn, path string, bufs []int, sd *side) {
 			if err != nil {
 				if err == io.EOF {
 					sd.eof = true
+					// end-of-stream is final: whoever reads again (small or large buffer) gets nothing more
+					for _, size := range []int{17, 70000, 1} {
+						lb := make([]byte, size)
+						if ln, lerr := c.Read(lb); ln != 0 || lerr == nil {
+							sd.err = fmt.Errorf("after end-of-stream had been reported a further Read returned n=%d err=%v", ln, lerr)
+							sd.eof = false
+							return
+						}
+					}
 				} else {
 					sd.err = err
 				}
